@@ -679,6 +679,101 @@ def part_large(chk, drv, runner):
         process(chk, "large", cases, drv, runner, shards=4)
 
 
+# ------------------------------------------------------------------ validate / repair
+
+def dump_text(shape, items, key_text, sealed=True, root=True, mutate=None):
+    """dump-syntax text of a tree of the given shape over items (consumed in order); limits are the
+    correct ones unless mutate(lo, hi) returns other keys"""
+    if isinstance(shape, int):
+        part = [items.pop(0) for _ in range(shape)]
+        body = "[" + ",".join("%s=%d" % (key_text(k), v) for k, v in part) + "]"
+        ks = [k for k, _ in part]
+    else:
+        subs = [dump_text(c, items, key_text, sealed, False, mutate) for c in shape]
+        body = "(" + "".join(t for t, _ in subs) + ")"
+        ks = [k for _, kk in subs for k in kk]
+    if root or not ks:
+        return "_" + body, ks
+    lo, hi = ks[0], ks[-1]
+    if mutate:
+        lo, hi = mutate(lo, hi)
+    return "%s~%s%s" % (key_text(lo), key_text(hi), body), ks
+
+
+def part_repair(chk, drv, runner):
+    """validate(true): a tree whose keys are not strictly ascending is rebuilt; the result must be a valid
+    tree holding the sorted map of the entries met in document order (a later duplicate wins), and must be
+    the very tree the modelled insert builds from those entries with the default threshold 32."""
+    rng = chk.rng
+    quick = chk.tier == "quick"
+    cases = []
+    for j in range(150 if quick else 3000):
+        t = rng.choice([3, 4, 5])
+        big = rng.random() < 0.15
+        shape = gen_shape(rng, t if not big else 6, rng.randint(0, 3), t if not big else 8)
+        n = shape_count(shape)
+        keys = rng.sample(range(-5, max(12, 3 * n)), n)
+        mode = rng.choice(["sorted", "swap", "dup", "shuffle", "sorted-badlimits"])
+        keys.sort()
+        if mode == "swap" and n >= 2:
+            a = rng.randrange(n - 1)
+            keys[a], keys[a + 1] = keys[a + 1], keys[a]
+        elif mode == "dup" and n >= 2:
+            a = rng.randrange(n - 1)
+            keys[a + 1] = keys[a]
+        elif mode == "shuffle":
+            rng.shuffle(keys)
+        items = [(k, 10 + i) for i, k in enumerate(keys)]
+        mut = None
+        if mode == "sorted-badlimits":
+            mut = lambda lo, hi: (lo - rng.choice([0, 1]), hi + rng.choice([0, 1, 2]))
+        text, _ = dump_text(shape, list(items), str, mutate=mut)
+        cases.append((text, items, mode))
+    impl = common.run_lines(drv, ["nnrepair num %s" % c[0] for c in cases], shards=4)
+    # expected rebuilt trees: the model's insert of the sorted entries into an empty tree, threshold 32
+    exp_maps = []
+    for text, items, mode in cases:
+        m = {}
+        for k, v in items:
+            m[k] = v
+        exp_maps.append(sorted(m.items()))
+    mlines = ["nn num 32 L[] %s 1000000" % (";".join("i:%d=%d" % kv for kv in em) or "-") for em in exp_maps]
+    model = common.run_lines(runner, mlines, shards=4)
+    wf = common.run_lines(runner, ["nnwf num 32 %s" % o for o in impl], shards=4)
+    tie = []
+    nontriv = set()
+    for (text, items, mode), o, mo, w, em in zip(cases, impl, model, wf, exp_maps):
+        keys = [k for k, _ in items]
+        ascending = all(a < b for a, b in zip(keys, keys[1:]))
+        res, _, dump = o.partition("@")
+        desc = {"driver_line": "nnrepair num " + text, "damage": mode}
+        if ascending:
+            if res != "V1" or dump != text:
+                chk.violation({"kind": "property-fails-on-implementation", "part": "repair", "case": desc,
+                               "why": "validate() of a tree with strictly ascending keys must return true and leave it alone", "implementation": o[:800]},
+                              signature="C18:repair:valid-tree-touched")
+            continue
+        nontriv.add(text)
+        want = "[" + ",".join("%d=%d" % kv for kv in em) + "]"
+        code, _, iabs = w.partition(":")
+        if not res.startswith("V0") or code != "0" or iabs != want:
+            chk.violation({"kind": "property-fails-on-implementation", "part": "repair", "case": desc,
+                           "why": "after validate(repair) the tree must be valid and hold the sorted map of its entries (validity code %s)" % code,
+                           "implementation": o[:800], "expected_content": want[:400]}, signature="C18:repair:result")
+            continue
+        mdump = mo.rsplit("@", 1)[-1] if em else "_[]"
+        if dump != mdump:
+            tie.append((desc, dump, mdump))
+    if tie and not [v for v in chk.violations if not v[1]]:
+        chk.violation({"kind": "correspondence-broken", "correspondence": "corr:C18:nntree-repair", "differing_cases": len(tie),
+                       "first_case": tie[0][0], "implementation": tie[0][1][:800], "model": tie[0][2][:800]}, no_input=True)
+    chk.count("repair", len(cases), nontriv, samples=[{"driver_line": "nnrepair num " + cases[0][0]}])
+    kinds = {}
+    for c in cases:
+        kinds[c[2]] = kinds.get(c[2], 0) + 1
+    chk.cov["parts"]["repair"]["damage_kinds"] = kinds
+
+
 # ------------------------------------------------------------------ attachments (CLI vs a dictionary specification)
 
 def iso_of_pdfdate(d):
@@ -897,12 +992,15 @@ def run(chk):
                        "numbers or Unicode/PDFDoc/UTF-16 names from empty, flat (also above the split bound) and generated multi-level valid "
                        "trees, plus ascending/descending bulk loads and full removals; large: threshold 32 (default) and others over 10^5 keys. "
                        "non-trivial = history during which the number of tree nodes changed (a split or a pruning), distinct by whole case. "
+                       "repair: validate(true) on generated trees with swapped / duplicated / shuffled keys or wrong /Limits: result valid, content = sorted "
+                       "map of the entries, structure = the model's rebuild by insertion with threshold 32; non-trivial = tree that had to be rebuilt. "
                        "attachments: sequences of qpdf --add-attachment / --replace / --remove-attachment / --copy-attachments-from [--prefix] over 1..3 files "
                        "with colliding, prefixed and non-ASCII keys and payloads of 0,1,4095,4096,4097 (thorough: 2^20) bytes, checked after every step "
                        "through --list-attachments --verbose, --json attachments and --show-attachment against a dictionary; non-trivial = step leaving >= 2 attachments")
     part_exhaustive(chk, drv, runner)
     part_random(chk, drv, runner)
     part_large(chk, drv, runner)
+    part_repair(chk, drv, runner)
     part_attach(chk)
 
 
